@@ -140,6 +140,21 @@ def diff_lex(g, m):
     return None
 
 
+def corner_written_files(tag, wd):
+    """the deterministic corner workloads of chk_writer.corner_cases written by the real writer"""
+    cases = cw.corner_cases(tag)
+    scripts = [(c["id"], gw.script_lines(c["o"], c["calls"], None)) for c in cases]
+    raw, crashed = cm.run_sharded(os.path.join(cm.BUILD, "impl"), "write", scripts, wd, tag + "cwr")
+    res = []
+    for c in cases:
+        g = cw.parse_write_obs(raw.get(c["id"], []))
+        if g["new"] == "ok" and all(r == "ok" for r in g["calls"]) and not c["o"]["skipmagic"]:
+            c["file"] = b"".join(g["writes"])
+            c["g"] = g
+            res.append(c)
+    return res
+
+
 def lex_replay(c):
     return ["case %s" % c["id"]] + lex_lines(c, c.get("_dec")) + ["end"]
 
